@@ -5,9 +5,12 @@ from __future__ import annotations
 from typing import TYPE_CHECKING
 from typing import Any
 from typing import Iterable
+from typing import ItemsView
 from typing import Iterator
+from typing import KeysView
 from typing import Mapping
 from typing import TextIO
+from typing import ValuesView
 
 from liquid2 import BlockNode
 from liquid2 import Expression
@@ -265,6 +268,24 @@ class ForLoop(Mapping[str, object]):
 
     def __iter__(self) -> Iterator[Any]:
         return self
+
+    # `__iter__` steps through the loop's items, not the drop's keys, so the
+    # `Mapping` mixins that index `self` with whatever `__iter__` yields can't
+    # be used. These views are what `for x in forloop`, `==` and `dict()` see.
+    def _as_dict(self) -> dict[str, object]:
+        return {key: getattr(self, key) for key in sorted(self._keys)}
+
+    def keys(self) -> KeysView[str]:
+        """Return a view of the drop's keys."""
+        return self._as_dict().keys()
+
+    def items(self) -> ItemsView[str, object]:
+        """Return a view of the drop's (key, value) pairs."""
+        return self._as_dict().items()
+
+    def values(self) -> ValuesView[object]:
+        """Return a view of the drop's values."""
+        return self._as_dict().values()
 
     def __str__(self) -> str:
         return "ForLoop"
